@@ -1,5 +1,131 @@
 import AiocoapModel.Basic.Bytes
-/-! Line protocol for C01 (not built yet). -/
+import AiocoapModel.Codec.Message
+/-! Line protocol for the datagram codec model (C01).
+
+`C01 ext r <nibble> <hex>`   → `<value> <rest-hex>` | `err`        (`readExt`)
+`C01 ext w <value>`          → `<nibble> <ext-hex>` | `err`        (`writeExt`)
+`C01 fmt <number>`           → `string|opaque|uint|block|contentFormat`   (`formatOf`)
+`C01 utf8 <hex>`             → `1` | `0`                           (`utf8Valid`)
+`C01 dec <hex>`              → `ok <msg>` | `err:unparsable` | `err:escaped:<PyExceptionName>`
+`C01 enc <msg>`              → `ok <hex>` | `err:struct.error` | `err:ValueError`
+
+`<msg>` = `<mtype> <code> <mid> <token-hex> <payload-hex> <opt>*`, all numbers decimal;
+`<opt>` = `<num>:s:<utf8-hex>` | `<num>:o:<hex>` | `<num>:u:<hexnum>` | `<num>:c:<hexnum>` |
+`<num>:b:<block_number>/<0|1>/<szx>`; `<hexnum>` = hexadecimal digits of the integer.
+For `enc` the options are given in the order they were added to `Message.opt`.
+-/
+namespace Aiocoap.Codec
+
+def natToHexDigits (n : Nat) : List Char := (Nat.toDigits 16 n)
+
+def natToHex (n : Nat) : String := String.ofList (natToHexDigits n)
+
+def hexNumToNat (s : String) : Option Nat :=
+  if s.isEmpty then none else
+  s.toList.foldl (fun acc c => do
+    let a ← acc
+    let d ← hexVal c
+    pure (a * 16 + d)) (some 0)
+
+def showVal : OptVal → String
+  | .str b => "s:" ++ bytesToHex b
+  | .opaque b => "o:" ++ bytesToHex b
+  | .uint n => "u:" ++ natToHex n
+  | .cf n => "c:" ++ natToHex n
+  | .block num more szx => s!"b:{num}/{if more then 1 else 0}/{szx}"
+
+def showOpt (o : Opt) : String := s!"{o.num}:" ++ showVal o.val
+
+def showMsg (m : Msg) : String :=
+  " ".intercalate
+    ([toString m.mtype, toString m.code, toString m.mid, bytesToHex m.token, bytesToHex m.payload]
+      ++ m.opts.map showOpt)
+
+def parseOpt (s : String) : Option Opt :=
+  match s.splitOn ":" with
+  | [n, k, v] => do
+    let num ← n.toNat?
+    let val ← (match k with
+      | "s" => (hexToBytes v).map OptVal.str
+      | "o" => (hexToBytes v).map OptVal.opaque
+      | "u" => (hexNumToNat v).map OptVal.uint
+      | "c" => (hexNumToNat v).map OptVal.cf
+      | "b" =>
+        match v.splitOn "/" with
+        | [bn, m, z] => do
+          let bn ← bn.toNat?
+          let m ← (if m = "1" then some true else if m = "0" then some false else none)
+          let z ← z.toNat?
+          pure (OptVal.block bn m z)
+        | _ => none
+      | _ => none)
+    pure { num, val }
+  | _ => none
+
+def parseMsg (args : List String) : Option Msg :=
+  match args with
+  | mtype :: code :: mid :: token :: payload :: opts => do
+    let mtype ← mtype.toNat?
+    let code ← code.toNat?
+    let mid ← mid.toNat?
+    let token ← hexToBytes token
+    let payload ← hexToBytes payload
+    let opts ← opts.mapM parseOpt
+    pure { mtype, code, mid, token, opts, payload }
+  | _ => none
+
+def showFmt : Fmt → String
+  | .string => "string" | .opaque => "opaque" | .uint => "uint" | .block => "block"
+  | .contentFormat => "contentFormat"
+
+def handleC01 (args : List String) : String :=
+  match args with
+  | ["ext", "r", nib, hex] =>
+    match nib.toNat?, hexToBytes hex with
+    | some nib, some raw =>
+      -- the code only ever passes a 4-bit field
+      if nib ≥ 16 then "out-of-model" else
+      match readExt nib raw with
+      | some (v, rest) => s!"{v} {bytesToHex rest}"
+      | none => "err"
+    | _, _ => "bad-op"
+  | ["ext", "w", v] =>
+    match v.toNat? with
+    | some v =>
+      match writeExt v with
+      | some (nib, ext) => s!"{nib} {bytesToHex ext}"
+      | none => "err"
+    | none => "bad-op"
+  | ["fmt", n] =>
+    match n.toNat? with
+    | some n => showFmt (formatOf n)
+    | none => "bad-op"
+  | ["utf8", hex] =>
+    match hexToBytes hex with
+    | some b => if utf8Valid b then "1" else "0"
+    | none => "bad-op"
+  | ["dec", hex] =>
+    match hexToBytes hex with
+    | some raw =>
+      match decode raw with
+      | .ok m => "ok " ++ showMsg m
+      | .error .unparsable => "err:unparsable"
+      | .error (.escaped .unicodeDecode) => "err:escaped:UnicodeDecodeError"
+    | none => "bad-op"
+  | "enc" :: rest =>
+    match parseMsg rest with
+    | some m =>
+      -- `mtype` is a `Type` enum member in the code; other numbers cannot be set
+      if m.mtype ≥ 4 then "out-of-model" else
+      match encode m with
+      | .ok b => "ok " ++ bytesToHex b
+      | .error .structError => "err:struct.error"
+      | .error .valueError => "err:ValueError"
+    | none => "bad-op"
+  | _ => "bad-op"
+
+end Aiocoap.Codec
+
 namespace Aiocoap
-def handleC01 (_args : List String) : String := "out-of-model"
+def handleC01 (args : List String) : String := Codec.handleC01 args
 end Aiocoap
